@@ -165,6 +165,39 @@ def make_truncate(prog_name, src):
     return truncate_case
 
 
+LONG_FORMS = [
+    ("unicode-brace", lambda n: '"\\u{' + "F" * n + '}"'), ("unicode-brace-zero", lambda n: '"\\u{' + "0" * n + '41}"'),
+    ("hex", lambda n: "0x" + "f" * n), ("decimal", lambda n: "1" + "0" * n), ("binary", lambda n: "0b" + "1" * n), ("octal", lambda n: "0o" + "7" * n),
+    ("fraction", lambda n: "1." + "5" * n), ("small", lambda n: "." + "0" * n + "1"), ("exponent", lambda n: "1e" + "9" * n),
+    ("neg-exponent", lambda n: "1e-" + "9" * n), ("minus", lambda n: "-" * n + "1"), ("not", lambda n: "!" * n + "1"),
+    ("typeof", lambda n: "typeof " * n + "1"), ("sum", lambda n: "1" + "+1" * n), ("parens", lambda n: "(" * n + "1" + ")" * n),
+    ("calls", lambda n: "f" + "()" * n), ("members", lambda n: "x" + ".y" * n), ("index", lambda n: "x" + "[0]" * n),
+    ("arrows", lambda n: "x=>" * n + "1"), ("arrays", lambda n: "[" * n + "]" * n), ("blocks", lambda n: "{" * n + "}" * n),
+    ("objects", lambda n: "x=" + "{a:" * n + "1" + "}" * n), ("conditional", lambda n: "a?" * n + "1" + ":1" * n),
+    ("backslashes", lambda n: '"' + "\\\\" * n + '"'), ("flags", lambda n: "/a/" + "g" * n), ("regex-groups", lambda n: "/" + "(" * n + ")" * n + "/"),
+    ("regex-class", lambda n: "/[" + "a-z" * n + "]/"), ("identifier", lambda n: "a" * n), ("vars", lambda n: "var " + ",".join("v%d" % i for i in range(n + 1))),
+    ("new", lambda n: "new " * n + "X"), ("comma", lambda n: "1" + ",1" * n), ("string", lambda n: "'" + "x" * n + "'"),
+    ("comment", lambda n: "/*" + "*" * n + "/ 1"), ("ifs", lambda n: "if(a)" * n + "b"), ("functions", lambda n: "function f(){" * n + "}" * n),
+    ("eval-nest", lambda n: "eval(" * min(n, 60) + "1" + ")" * min(n, 60)), ("assign-chain", lambda n: "a=" * n + "1"),
+    ("labels", lambda n: "".join("L%d:" % i for i in range(n)) + ";"), ("switch", lambda n: "switch(x){" + "case 1:" * n + "}"),
+    ("try", lambda n: "try{" * n + "}catch(e){}" * n),
+]
+LONG_N = [1, 2, 5, 17, 30, 64, 100, 257, 400, 1000, 3000]
+
+
+def long_case(f: int, k: int) -> bool:
+    """Literal and nesting forms repeated n times (n solver-indexed): a value, a JSSyntaxError or a runtime JSError - nothing else."""
+    name, make = pick(f, LONG_FORMS)
+    n = pick(k, LONG_N)
+    with NoTracing():
+        src = make(n)
+        r = classify(src, lambda: run_script(src))
+        cover("judged")
+        if r is not None:
+            return "%s x %d: %s" % (name, n, r)
+    return True
+
+
 def pick_range(i, n):
     pre(0 <= i < n)
     lo, hi = 0, n
@@ -305,6 +338,10 @@ def harnesses():
                               tier="quick" if kind in ("string", "int", "float", "array", "object", "function", "regex", "uint8", "float64",
                                                        "buffer", "error", "arguments", "native", "bound") else "thorough",
                               bounds=["(%s).%s called with 0-3 arguments from the adversarial grid" % (rexpr, name)]))
+    hs.append(Harness(id="C04.long", fn=long_case, group="front", functions=FNS, per_path=120, budget=900, require=("judged",),
+                      bounds=["%d literal/nesting forms (escapes, number bases, operator chains, brackets, calls, regex groups ...) repeated "
+                              "n times, n in %s, through Context.eval (nesting beyond the host stack must be JSSyntaxError/MemoryLimitError)"
+                              % (len(LONG_FORMS), LONG_N)]))
     for i, form in enumerate(OPERATOR_FORMS):
         hs.append(Harness(id="C04.operator.%02d" % i, fn=make_operator(form), group="api.operator", functions=FNS, per_path=120, budget=600,
                           require=("judged",), bounds=["%r with both operands from the adversarial grid" % form]))
